@@ -99,6 +99,7 @@ def run(e: Engine, rep: Report):
     n17(e, rep)
     n18(e, rep)
     n19(e, rep)
+    n20(e, rep)
     rep.floor('N1', 9, 'relay implementations / set sites')
     rep.floor('N2', 12, 'client command sites')
 
@@ -2096,6 +2097,57 @@ def n15(e: Engine, rep: Report, rule: str = 'N15'):
                nontrivial=False)
 
 
+# -------------------------------------------------------------------- N20
+def n20(e: Engine, rep: Report, rule: str = 'N20'):
+    """Python unbinds the name of `except E as name` when the clause ends.
+    Reading it afterwards (`raise exc` after the loop that caught it) raises
+    UnboundLocalError - out of a relay that is a bare exception in place of
+    the relay error the code meant to report."""
+    rep.rule(rule, 'in the relay modules no name bound by `except ... as` is '
+             'read outside its clause unless the function binds it '
+             'elsewhere too (the language unbinds it at the end of the '
+             'clause)')
+    n = 0
+    bad = 0
+    for f in sorted(e.p.functions.values(), key=lambda f: f.qname):
+        if not f.module.name.startswith('slimta.relay'):
+            continue
+        hs = [h for h in walk_own(f.node)
+              if isinstance(h, ast.ExceptHandler) and h.name]
+        for h in hs:
+            n += 1
+            inside = {id(x) for st in h.body for x in ast.walk(st)}
+            other = [x for x in walk_own(f.node) if isinstance(x, ast.Name)
+                     and x.id == h.name and isinstance(x.ctx, ast.Store)]
+            if other or h.name in f.params:
+                continue          # bound elsewhere as well: not judged
+            # (handlers of the same name count as clauses of their own)
+            same = set()
+            for h2 in hs:
+                if h2.name == h.name:
+                    same |= {id(x) for st in h2.body for x in ast.walk(st)}
+            reads = [x for x in walk_own(f.node) if isinstance(x, ast.Name)
+                     and x.id == h.name and isinstance(x.ctx, ast.Load) and
+                     id(x) not in same]
+            for x in reads:
+                bad += 1
+                rep.evaluations += 1
+                rep.functions.add(f.qname)
+                rep.bad(rule, f.qname, '`%s` read outside its except clause'
+                        % h.name,
+                        '`%s` is bound by `except ... as %s` only; Python '
+                        'deletes that name when the clause ends, so this '
+                        'read raises UnboundLocalError: the relay fails '
+                        'with a bare exception (retried as an unexpected '
+                        'error) instead of the relay error it meant to '
+                        'report' % (h.name, h.name), loc=f.loc(x))
+    rep.evaluations += 1
+    if not bad:
+        rep.ok(rule, 'slimta.relay', 'no except-name read after its clause',
+               reason='%d named except clauses scanned' % n,
+               nontrivial=False)
+
+
 # -------------------------------------------------------------------- N19
 def n19(e: Engine, rep: Report, rule: str = 'N19'):
     """The LMTP relay client drives an LmtpClient, whose ehlo() / helo() are
@@ -2114,11 +2166,23 @@ def n19(e: Engine, rep: Report, rule: str = 'N19'):
     g = e.build(ctx, raises=lambda b, n, r: set(),
                 inline=e.inline_same_self(deny=['poll']), max_depth=8)
     n = 0
+    sites = []
     for nd in g.calls():
         f = nd.ast.func
-        if not (isinstance(f, ast.Attribute) and
-                (path_of(f.value, nd.frame) or '') == 'self.client'):
-            continue
+        if isinstance(f, ast.Attribute) and \
+                (path_of(f.value, nd.frame) or '') == 'self.client':
+            sites.append((nd, f))
+        # a bound method of the client handed to a runner
+        # (self._timed(t, self.client.rcptto, rcpt))
+        for a in list(nd.ast.args) + [k.value for k in nd.ast.keywords]:
+            for y in ast.walk(a):
+                if isinstance(y, ast.Attribute) and \
+                        isinstance(y.ctx, ast.Load) and \
+                        (path_of(y.value, nd.frame) or '') == 'self.client' \
+                        and not any(isinstance(z, ast.Call) and z.func is y
+                                    for z in ast.walk(a)):
+                    sites.append((nd, y))
+    for nd, f in sites:
         m = e.p.lookup_method(cc, f.attr)
         if m is None:
             continue
@@ -2134,9 +2198,9 @@ def n19(e: Engine, rep: Report, rule: str = 'N19'):
                   'retried, although the peer gave a definite answer'
                   % nd.text(40), loc=nd.loc(),
                   reason='implemented by LmtpClient')
-    if n < 5:
+    if n < 3:
         rep.error('anchor vanished: client commands below '
-                  'LmtpRelayClient._run (%d < 5)' % n)
+                  'LmtpRelayClient._run (%d < 3)' % n)
 
 
 # -------------------------------------------------------------------- N18
